@@ -75,6 +75,11 @@ class Arith:
         return tm.sqrt(a)
 
     def binop(self, op, a, b):
+        # python/numpy: True == 1, False == 0 in arithmetic
+        if isinstance(a, T) and a.sort == tm.B:
+            a = tm.ite(a, tm.const(1), tm.const(0))
+        if isinstance(b, T) and b.sort == tm.B:
+            b = tm.ite(b, tm.const(1), tm.const(0))
         if isinstance(op, ast.Add):
             return tm.add(a, b)
         if isinstance(op, ast.Sub):
@@ -434,6 +439,10 @@ def _slice_bounds(s, n):
 
 
 def arr_getitem(ex, a, idx):
+    if isinstance(idx, PermV):
+        if a.ndim != 1 or a.mask is not None or (a.shape[0] is not idx.key.shape[0]):
+            raise OutOfSubset("permutation index of this operand")
+        return PermArrV(a, idx)
     if isinstance(idx, ArrV) and idx.dtype == "b":
         if a.mask is not None or a.ndim != 1:
             raise OutOfSubset("mask of a masked / multi-dimensional array")
@@ -658,6 +667,16 @@ def lib_getattr(ex, o, name):
             return LibFn("table.copy", cp)
         if name == "columns" and o.kind == "DataFrame":
             return list(o.cols.keys())
+        if name == "dropna" and o.kind == "DataFrame":
+            def dropna(ex, **kw):
+                if kw:
+                    raise OutOfSubset(f"dropna options {sorted(kw)}")
+                used(ex, "pandas DataFrame.dropna(): keeps exactly the rows without a missing value in ANY column")
+                cols_ = list(o.cols.values())
+                fns = [a.cur() for a in cols_]
+                mask = ArrV(cols_[0].shape, lambda idx: tm.land(*[tm.app("notna", [g(idx)], tm.B) for g in fns]), "b")
+                return table_getitem(ex, o, mask)
+            return LibFn("DataFrame.dropna", dropna)
         if name == "to_records" and o.kind == "DataFrame":
             return LibFn("DataFrame.to_records", lambda ex, index=True: RecArrV(dict(o.cols)))
         if name in ("keys",):
@@ -710,6 +729,11 @@ def lib_getattr(ex, o, name):
                 keys = set(ex.iterate(other)) if not isinstance(other, (set, frozenset)) else other
                 return set(o) & set(keys)
             return LibFn("set.intersection", inter)
+        if name in ("issubset", "issuperset", "union", "difference"):
+            def setop(ex, other, name=name):
+                keys = set(ex.iterate(other)) if not isinstance(other, (set, frozenset)) else set(other)
+                return {"issubset": set(o) <= keys, "issuperset": set(o) >= keys, "union": set(o) | keys, "difference": set(o) - keys}[name]
+            return LibFn("set." + name, setop)
         raise OutOfSubset("set." + name)
     if isinstance(o, str):
         if name == "join":
@@ -976,6 +1000,8 @@ def b_isinstance(ex, v, cls):
 
 
 def b_hasattr(ex, o, name):
+    if o is None:
+        return False
     if isinstance(o, ObjV):
         return name in o.fields or o.cls.lookup(name) is not None
     if isinstance(o, TableV):
@@ -987,6 +1013,22 @@ def b_hasattr(ex, o, name):
     if isinstance(o, ArrV):
         return name in ("copy", "shape", "sum", "dtype")
     raise OutOfSubset(f"hasattr on {type(o).__name__}")
+
+
+def b_getattr(ex, o, name, *default):
+    if not isinstance(name, str):
+        raise OutOfSubset("getattr with a computed name")
+    if default:
+        try:
+            present = b_hasattr(ex, o, name)
+        except OutOfSubset:
+            if isinstance(o, T) or isinstance(o, (int, float, list, tuple)):
+                present = False  # python scalars / lists / symbolic python numbers carry none of the modelled attributes
+            else:
+                raise
+        if not present:
+            return default[0]
+    return ex.getattr(o, name)
 
 
 def b_range(ex, *args):
@@ -1015,6 +1057,7 @@ BUILTINS = {
     "range": LibFn("range", b_range),
     "isinstance": LibFn("isinstance", b_isinstance),
     "hasattr": LibFn("hasattr", b_hasattr),
+    "getattr": LibFn("getattr", b_getattr),
     "dict_type": None,
     "str": LibFn("str", lambda ex, v="": "<str>"),
     "repr": LibFn("repr", lambda ex, v="": "<str>"),
@@ -1121,6 +1164,12 @@ def np_empty_like(ex, proto, dtype=None):
 
 def np_full_like(ex, proto, fill, dtype=None):
     proto = as_array(ex, proto)
+    if isinstance(proto, T):
+        # 0-d result with the scalar's type: a python/numpy integer prototype truncates the fill value
+        v = tm.lift(num(fill))
+        code = (dtype.code if isinstance(dtype, DTypeV) else dtype) if dtype is not None else ("i8" if proto.sort == tm.I else "f8")
+        used(ex, "np.full_like(scalar, fill): 0-d array of the scalar's type (integer prototype truncates the fill value)")
+        return tm.trunc(v) if code in INT_RANGE else tm.toreal(v)
     used(ex, "np.empty_like/full_like/ones_like: shape and (unless overridden) dtype of the prototype")
     dt = _like_dtype(proto, dtype)
     v = tm.lift(num(fill))
@@ -1311,6 +1360,79 @@ def cumulative_trapezoid(ex, y, x=None, dx=None, initial=None):
     return out
 
 
+#: preconditions of library calls that the calling code does not establish, collected per obligation run (oblig._run_one):
+#: (status, text) with status "refuted" when the data is a caller-supplied array whose order nothing constrains
+LIB_PRE_UNMET = []
+
+
+def require_increasing(ex, x, what):
+    """library precondition `x increasing` (interp1d(assume_sorted=True), np.interp): established only for arrays this
+    engine knows to be sorted; a column of the caller's table carries no order, so a counterexample exists (any
+    descending table); derived arrays are left undecided"""
+    xa = x.arr if isinstance(x, MapList) else x
+    ex.ghost.setdefault("sortedness_assumed", []).append(what)
+    if isinstance(xa, ArrV) and getattr(xa, "increasing", False):
+        return
+    named = isinstance(xa, ArrV) and (getattr(xa, "name", None) or getattr(xa, "srcname", None))
+    LIB_PRE_UNMET.append(("refuted" if named else "unknown", f"{what} requires an increasing abscissa; "
+                          + (f"the abscissa is the caller's column {named!r}, whose row order no precondition constrains (every other interpolant of the library sorts it)" if named else "the abscissa is a derived array whose order is not established")))
+
+
+class PermV:
+    """np.argsort(key): the permutation that sorts `key` (1-D array)"""
+
+    def __init__(self, key):
+        self.key = key
+
+
+class PermArrV:
+    """arr[np.argsort(key)]: `arr` re-ordered by the permutation that sorts `key`.  Accepted only as interp1d / np.interp
+    data (an (x[perm], y[perm]) pair with x the key is the sorted table, which is what the interpolant models speak
+    about); any other use is outside the subset"""
+
+    def __init__(self, arr, perm):
+        self.arr, self.perm = arr, perm
+
+
+def np_argsort(ex, a, **kw):
+    a = as_array(ex, a)
+    if kw or not isinstance(a, ArrV) or a.ndim != 1 or a.mask is not None:
+        raise OutOfSubset("np.argsort of this operand / with options")
+    used(ex, "np.argsort(key): the permutation sorting key; (x[perm], y[perm]) with key x is the table sorted by x")
+    return PermV(a)
+
+
+def _same_array(a, b):
+    return a is b or (a.shape == b.shape and a.get(tm.var("__j", tm.I)) is b.get(tm.var("__j", tm.I)))
+
+
+def _unperm_pair(ex, x, y, what):
+    """(x, y) data of an interpolant: resolves a co-permuted pair; returns (x, y, sorted_known)"""
+    px, py = isinstance(x, PermArrV), isinstance(y, PermArrV)
+    if not px and not py:
+        return x, y, False
+    if not (px and py) or x.perm is not y.perm:
+        raise OutOfSubset(f"{what}: abscissa and ordinate are not re-ordered by the same permutation")
+    if not _same_array(x.perm.key, x.arr):
+        raise OutOfSubset(f"{what}: data re-ordered by a permutation that does not sort the abscissa")
+    return x.arr, y.arr, True
+
+
+def np_interp(ex, q, xp, fp, left=None, right=None, period=None):
+    """np.interp(q, xp, fp, left, right): the linear interpolant through (xp, fp) with constant fill left / right, PROVIDED
+    xp is increasing (numpy does not check and does not sort)"""
+    if period is not None:
+        raise OutOfSubset("np.interp(period=...)")
+    xp, fp, known = _unperm_pair(ex, xp, fp, "np.interp")
+    if not known:
+        require_increasing(ex, xp, "np.interp")
+    fa = as_array(ex, fp)
+    lo = fa.get(tm.const(0)) if left is None else left
+    hi = fa.get(tm.sub(fa.shape[0], tm.const(1))) if right is None else right
+    it = Interp1dV(ex, xp, fp, bounds_error=False, fill_value=(lo, hi))
+    return it.__call_model__(ex, q)
+
+
 class Interp1dV:
     """scipy.interpolate.interp1d(x, y, bounds_error, fill_value): piecewise linear through the nodes.
     Application is an uninterpreted function I(q); its assumed contract (segment formula inside,
@@ -1319,9 +1441,15 @@ class Interp1dV:
 
     _n = [0]
 
-    def __init__(self, ex, x, y, kind="linear", bounds_error=None, fill_value=None, **kw):
+    def __init__(self, ex, x, y, kind="linear", bounds_error=None, fill_value=None, assume_sorted=False, **kw):
         if kw:
             raise OutOfSubset(f"interp1d options {sorted(kw)}")
+        # assume_sorted=False (default): scipy sorts (x, y) by x first, so any row order of the table is accepted;
+        # assume_sorted=True makes increasing x a precondition of the CALLER's data, which no contract here establishes
+        self.assume_sorted = assume_sorted is True
+        x, y, known = _unperm_pair(ex, x, y, "interp1d")
+        if self.assume_sorted and not known:
+            require_increasing(ex, x, "interp1d(assume_sorted=True)")
         self.kind = kind if isinstance(kind, str) else "other"
         xa, ya = as_array(ex, x), as_array(ex, y)
         self.x = arr_copy(ex, xa)
@@ -1451,7 +1579,19 @@ def namedtuple_model(ex, name, fields):
     return c
 
 
-def np_vectorize(ex, f):
+def np_vectorize(ex, f, otypes=None, **kw):
+    """np.vectorize(f[, otypes])(…, arr, …)[j] = f(…, arr[j], …) cast to the output type: otypes if given, otherwise the
+    type of the FIRST element's result (a python int there makes the whole result an integer array: later real
+    results are truncated)"""
+    if kw:
+        raise OutOfSubset(f"np.vectorize options {sorted(kw)}")
+    ocode = None
+    if otypes is not None:
+        o0 = otypes[0] if isinstance(otypes, (list, tuple)) else otypes
+        ocode = o0.code if isinstance(o0, DTypeV) else {"float": "f8", "int": "i8"}.get(getattr(o0, "name", None) if isinstance(o0, LibFn) else None)
+        if ocode is None:
+            raise OutOfSubset("np.vectorize otypes")
+
     def call(ex2, *args):
         args = [a.arr if isinstance(a, MapList) else a for a in args]
         arrs = [a for a in args if isinstance(a, ArrV)]
@@ -1460,9 +1600,33 @@ def np_vectorize(ex, f):
         if len(arrs) != 1:
             raise OutOfSubset("vectorize over several arrays")
         k = [i for i, a in enumerate(args) if isinstance(a, ArrV)][0]
-        used(ex2, "np.vectorize(f)(…, arr, …)[j] = f(…, arr[j], …)")
-        ml = map_over(ex2, arrs[0], lambda v: (ex2.call_merged(f, args[:k] + [v] + args[k + 1:]) if isinstance(f, FuncV) else ex2.call(f, args[:k] + [v] + args[k + 1:])))
-        return ml.arr
+        arr = arrs[0]
+        used(ex2, "np.vectorize(f)(…, arr, …)[j] = f(…, arr[j], …), output type = otypes or the type of the first element's result")
+        one = lambda v: (ex2.call_merged(f, args[:k] + [v] + args[k + 1:]) if isinstance(f, FuncV) else ex2.call(f, args[:k] + [v] + args[k + 1:]))
+        res = map_over(ex2, arr, one).arr
+        fn = res.cur()
+        if ocode is not None:
+            if ocode in INT_RANGE:
+                return ArrV(res.shape, lambda idx: tm.trunc(fn(idx)), ocode, mask=res.mask)
+            return ArrV(res.shape, fn, ocode, mask=res.mask)
+        if not isinstance(f, FuncV):
+            return res
+        # type inference from the first element
+        first = arr.get(tm.const(0))
+        ex2.merge_mode += 1
+        try:
+            paths = ex2.nested_paths(f, args[:k] + [first] + args[k + 1:])
+        finally:
+            ex2.merge_mode -= 1
+        int_conds = [tm.land(*pcs) for kind, v, pcs, e_ in paths if kind == "return" and isinstance(v, T) and v.sort == tm.I]
+        real_paths = [1 for kind, v, pcs, e_ in paths if kind == "return" and isinstance(v, T) and v.sort != tm.I]
+        if not int_conds:
+            return res
+        if not real_paths:
+            return ArrV(res.shape, lambda idx: tm.trunc(fn(idx)), "i8", mask=res.mask)
+        c0 = tm.lor(*int_conds)
+        return ArrV(res.shape, lambda idx: tm.ite(c0, tm.toreal(tm.trunc(fn(idx))), fn(idx)), "f8", mask=res.mask)
+
     return LibFn("vectorized", call)
 
 
@@ -1637,6 +1801,8 @@ _reg("warnings.warn", lambda ex, *a, **k: None)
 _reg("warnings.catch_warnings", lambda ex, *a, **k: None)
 _reg("warnings.simplefilter", lambda ex, *a, **k: None)
 _reg("collections.namedtuple", namedtuple_model)
+_reg("numpy.interp", np_interp)
+_reg("numpy.argsort", np_argsort)
 _reg("scipy.interpolate.interp1d", lambda ex, x, y, **kw: Interp1dV(ex, x, y, **kw))
 _reg("scipy.interpolate.interpolate.interp1d", lambda ex, x, y, **kw: Interp1dV(ex, x, y, **kw))
 _reg("scipy.integrate.cumulative_trapezoid", cumulative_trapezoid)
